@@ -251,6 +251,7 @@ public:
       coordinates.push_back(2*coordinates[coordinates.size()-1]-coordinates[coordinates.size()-2]);
     }
 
+    try{ //release what has been allocated if a later allocation fails
     //set dimensions
     ndim=inputDim+1;
     //copy/set spline orders and knots
@@ -265,6 +266,7 @@ public:
     nknots[inputDim]=tables.size()+stackOrder+1;
 
     knots=allocate<double_ptr>(ndim);
+    std::fill_n(knots,ndim,nullptr);
     //copy existing knots
     for(unsigned int i=0; i<inputDim; i++){
       knots[i]=allocate<double>(nknots[i]+2*order[i]) + order[i];
@@ -296,16 +298,6 @@ public:
       naxes[i] = tables.front()->get_ncoeffs(i);
     naxes[inputDim]=tables.size();
 
-    //copy coefficients
-    unsigned long nCoeffs=std::accumulate(naxes, naxes+ndim, 1UL, std::multiplies<uint64_t>());
-    unsigned long nInputCoeffs=std::accumulate(naxes, naxes+ndim-1, 1UL, std::multiplies<uint64_t>());
-    coefficients=allocate<float>(nCoeffs);
-    unsigned int step=naxes[ndim-1];
-    for(unsigned int i=0; i<tables.size(); i++){
-      for(unsigned int j=0; j<nInputCoeffs; j++)
-        coefficients[i+j*step]=tables[i]->get_coefficients()[j];
-    }
-
     //set strides
     strides = allocate<uint64_t>(ndim);
     uint64_t arraysize;
@@ -314,6 +306,16 @@ public:
       arraysize *= naxes[i];
       if(i>0)
         strides[i-1] = arraysize;
+    }
+
+    //copy coefficients
+    unsigned long nCoeffs=std::accumulate(naxes, naxes+ndim, 1UL, std::multiplies<uint64_t>());
+    unsigned long nInputCoeffs=std::accumulate(naxes, naxes+ndim-1, 1UL, std::multiplies<uint64_t>());
+    coefficients=allocate<float>(nCoeffs);
+    unsigned int step=naxes[ndim-1];
+    for(unsigned int i=0; i<tables.size(); i++){
+      for(unsigned int j=0; j<nInputCoeffs; j++)
+        coefficients[i+j*step]=tables[i]->get_coefficients()[j];
     }
 
     //keep the extents of the stacked tables; in the new dimension make them up
@@ -329,6 +331,10 @@ public:
     }
     extents[inputDim][0]=knots[inputDim][order[inputDim]];
     extents[inputDim][1]=knots[inputDim][nknots[inputDim]-order[inputDim]-1];
+    }catch(...){
+      reset();
+      throw;
+    }
 	}
 
 	splinetable(splinetable&& other):
